@@ -387,6 +387,49 @@ def run(repo: Repo, ctx) -> None:
                            'a preceding completed disconnect',
                            f'{f.module.rel()}:{n.lineno}', sample=why)
 
+    # ---- R1b slot lifetime brackets connection lifetime -----------------
+    # a capacity slot is released only after the close/open attempt has
+    # completed, and a connect is only started under a slot taken in the
+    # same atomic segment (otherwise usage is under-reported while a
+    # connection is still open/opening and a concurrent acquire can exceed
+    # the maximum)
+    for role, fn, cb in (('disconnect', pm.disconnect_fn, '_disconnect_cb'),
+                         ('connect', pm.connect_fn, '_connect_cb')):
+        g = pm.cfg(fn)
+        aw = [n.id for n in g.nodes if any(
+            isinstance(x, ast.Await) and isinstance(x.value, ast.Call)
+            and norm(x.value.func) == f'self.{cb}'
+            for e in g.node_exprs(n) for x in ast.walk(e))]
+        rel = [n for n in g.nodes if any(
+            a.kind == 'eff' and a.what == 'cap-1'
+            for a in pm.atoms(fn, g, n.id))]
+        if not aw:
+            raise AnalysisError(f'C15.R1b: await of {cb} not found')
+        for n in rel:
+            ok = g.always_before(n.id, aw)
+            ctx.ob('C15.R1', f'{short(fn)}:slot-released-after-{role}', ok,
+                   f'the capacity slot is released before the await of '
+                   f'{cb} has completed: while the connection is still '
+                   f'{"closing" if role == "disconnect" else "being opened"} '
+                   f'the pool under-reports its usage and a concurrent '
+                   f'acquire can exceed max_capacity',
+                   f'{fn.module.rel()}:{n.lineno}',
+                   sample=f'cap-1 dominated by await {cb}')
+    for f, g, nid, call in _call_sites(pm, pm.connect_fn.name):
+        if pm.resolve(f, call) is not pm.connect_fn:
+            continue
+        takes = [n.id for n in g.nodes if any(
+            a.kind == 'eff' and a.what == 'cap+1'
+            for a in pm.atoms(f, g, n.id))]
+        ok = bool(takes) and g.always_before(nid, takes) and all(
+            _seg_clear(g, t, nid) for t in takes
+            if nid in g.reachable([t]))
+        ctx.ob('C15.R1', f'{short(f)}:connect-under-slot', ok,
+               f'{short(f)} starts a connect without having taken a '
+               f'capacity slot in the same atomic segment',
+               f'{f.module.rel()}:{call.lineno}',
+               sample='cap+1 precedes the connect, no await in between')
+
     # ---- R3 single writer ---------------------------------------------
     ctx.floor('C15.R3', 12)
     seen_writers: Dict[str, Set[str]] = {k: set() for k in WRITERS}
@@ -606,6 +649,30 @@ def _typestate(pm: PoolModel, ctx) -> None:
                    f'un-lent ({k}: {why})',
                    f'{f.module.rel()}:{call.lineno}', sample=f'{k}: {note}')
     check_release_callers(rel, set())
+
+    # (2b) a connection handed back as broken (discard=True) is never put
+    # back on the idle stack: it "counts as closed from that moment"
+    for f in pm.funcs:
+        if 'discard' not in f.params():
+            continue
+        g = pm.cfg(f)
+        tests = [t.id for t in g.nodes if t.kind == 'test'
+                 and norm(t.ast) == 'discard']
+        for n in g.nodes:
+            for c in g.node_calls(n):
+                t = pm.resolve(f, c)
+                if t is None or t.name not in ('_release_unused', 'release'):
+                    continue
+                if t.name == 'release' and t.cls is not pm.block:
+                    continue
+                ok = any(g.edge_dominates(tt, 'F', n.id) for tt in tests)
+                ctx.ob('C15.R4', f'{short(f)}:broken-conn-not-reused', ok,
+                       f'{short(f)} can put the connection back on the idle '
+                       f'stack on a path where discard is true: a connection '
+                       f'handed back as broken would be lent again',
+                       f'{f.module.rel()}:{c.lineno}',
+                       sample='idle-stack return dominated by `discard` '
+                              'being false')
 
     # (3) in_use = True only in Pool.acquire, dominated by the assert
     acq = repo.find_method(pm.pool.qualname, 'acquire')
